@@ -1113,30 +1113,73 @@ func ruleCCITTNoEOLInGroup4(c *core.Ctx) {
 // is formed in a type wider than 8 bits.
 func rulePNGAverage(c *core.Ctx, rule string) {
 	const pk = "pdf/internal/filter/predict"
-	for _, name := range []string{"(*writer).filterRow", "(*reader).decodePNGRow"} {
-		name := name
-		c.Check(rule, pk+"."+name+"/average", "the Average predictor halves a sum formed without 8-bit overflow", func(o *core.Ob) {
-			fn := c.Prog.Func(pk, name)
-			info := fn.Info()
+	for _, side := range []struct{ name, recv string }{{"(*writer).filterRow", "writer"}, {"(*reader).decodePNGRow", "reader"}} {
+		side := side
+		c.Check(rule, pk+"."+side.name+"/average", "the Average predictor halves a sum formed without 8-bit overflow", func(o *core.Ob) {
+			// the row function and the unexported functions of the package it
+			// refers to (the predictors may be helpers or entries of a table)
+			var fns []*core.Func
+			seen := map[*core.Func]bool{}
+			var add func(f *core.Func, depth int)
+			add = func(f *core.Func, depth int) {
+				if f == nil || seen[f] || f.Decl.Body == nil {
+					return
+				}
+				seen[f] = true
+				fns = append(fns, f)
+				if depth == 0 {
+					return
+				}
+				refs := func(root ast.Node, info *types.Info) {
+					ast.Inspect(root, func(m ast.Node) bool {
+						id, ok := m.(*ast.Ident)
+						if !ok {
+							return true
+						}
+						if tf, ok := info.Uses[id].(*types.Func); ok && tf.Pkg() != nil && tf.Pkg() == f.Obj.Pkg() {
+							add(c.Prog.FuncOf(tf), depth-1)
+						}
+						// a package-level table of functions
+						if tv, ok := info.Uses[id].(*types.Var); ok && tv.Pkg() == f.Obj.Pkg() && tv.Parent() == tv.Pkg().Scope() {
+							if _, init, pkg := c.Prog.Var(pk, tv.Name()); init != nil {
+								ast.Inspect(init, func(k ast.Node) bool {
+									if id2, ok := k.(*ast.Ident); ok {
+										if tf, ok := pkg.TypesInfo.Uses[id2].(*types.Func); ok && tf.Pkg() == f.Obj.Pkg() {
+											add(c.Prog.FuncOf(tf), depth-1)
+										}
+									}
+									return true
+								})
+							}
+						}
+						return true
+					})
+				}
+				refs(f.Decl.Body, f.Info())
+			}
+			add(c.Prog.RawFunc(pk, side.name), 2)
 			n := 0
-			ast.Inspect(fn.Decl.Body, func(m ast.Node) bool {
-				be, ok := m.(*ast.BinaryExpr)
-				if !ok || (be.Op != token.QUO && be.Op != token.SHR) {
+			for _, fn := range fns {
+				info := fn.Info()
+				ast.Inspect(fn.Decl.Body, func(m ast.Node) bool {
+					be, ok := m.(*ast.BinaryExpr)
+					if !ok || (be.Op != token.QUO && be.Op != token.SHR) {
+						return true
+					}
+					sum, ok := ast.Unparen(be.X).(*ast.BinaryExpr)
+					if !ok || sum.Op != token.ADD {
+						return true
+					}
+					n++
+					o.Count(1)
+					o.At(fn.Site(be, "halved sum"))
+					if b, ok := info.TypeOf(sum).Underlying().(*types.Basic); ok && (b.Kind() == types.Uint8 || b.Kind() == types.Int8) {
+						o.FailAt(fn.Site(be, ""), "%s: %s adds two bytes in an 8-bit type before halving: sums of 256 and more wrap around", c.Prog.Pos(be.Pos()), c.Prog.Src(be))
+					}
 					return true
-				}
-				sum, ok := ast.Unparen(be.X).(*ast.BinaryExpr)
-				if !ok || sum.Op != token.ADD {
-					return true
-				}
-				n++
-				o.Count(1)
-				o.At(fn.Site(be, "halved sum"))
-				if b, ok := info.TypeOf(sum).Underlying().(*types.Basic); ok && (b.Kind() == types.Uint8 || b.Kind() == types.Int8) {
-					o.FailAt(fn.Site(be, ""), "%s: %s adds two bytes in an 8-bit type before halving: sums of 256 and more wrap around", c.Prog.Pos(be.Pos()), c.Prog.Src(be))
-				}
-				return true
-			})
-			o.Require(n >= 1, "%s: no halved sum found (Average predictor)", fn.Key)
+				})
+			}
+			o.Shape(n >= 1, "%s: no halved sum found in the row function or the functions it refers to (Average predictor)", side.name)
 		})
 	}
 }
